@@ -69,6 +69,7 @@ class Ctx:
         self.behaviours = set()          # distinct behaviour signatures reached
         self.nontrivial = False
         self.components = set()
+        self.notes = {}                  # free-form JSON-able notes for the evidence (e.g. sweep status)
         self.record_events = record_events
         self.stop_on_violation = True
 
